@@ -57,9 +57,9 @@ def cache_put(key, val):
 
 
 # --------------------------------------------------------------------------------------------- verus
-def verus_pass(vacuity, seed_args=None, tag=""):
+def verus_pass(vacuity, seed_args=None, tag="", extracted=None):
     """one assemble + verus run; returns a JSON-able summary"""
-    A = vxlib.assemble(vacuity=vacuity)
+    A = vxlib.assemble(vacuity=vacuity, extracted=extracted)
     name = ("vacuity" if vacuity else "opaque_verif") + tag + ".rs"
     path = vxlib.write_file(A, name)
     res = vxlib.run_verus(path, extra=seed_args)
@@ -89,7 +89,7 @@ def verus_pass(vacuity, seed_args=None, tag=""):
 
 def theorem_names(A):
     out = []
-    for q in range(A.theorem_start - 1, len(A.lines)):
+    for q in range(0, len(A.lines)):
         m = re.match(r"^\s*(pub\s+)?(broadcast\s+)?(proof\s+|exec\s+)?fn\s+(thm_\w+|lemma_\w+)", A.lines[q])
         if m:
             out.append(m.group(4))
@@ -102,16 +102,17 @@ def verus_results(tier):
     if c:
         c["cache_hit"] = True
         return c
+    extracted = vxlib.run_extractor()
     with concurrent.futures.ThreadPoolExecutor(max_workers=2) as ex:
-        f1 = ex.submit(verus_pass, False)
-        f2 = ex.submit(verus_pass, True)
+        f1 = ex.submit(verus_pass, False, None, "", extracted)
+        f2 = ex.submit(verus_pass, True, None, "", extracted)
         main, vac = f1.result(), f2.result()
     out = {"main": main, "vacuity": vac, "cache_hit": False, "at": time.time()}
     if tier == "thorough":
         # re-run with two other SMT seeds: an obligation that flips is unstable (=> undecided), not a violation
         extra = []
         for sd in (7, 101):
-            extra.append(verus_pass(False, seed_args=["-V", f"smt-option=smt.random_seed={sd}", "-V", f"smt-option=sat.random_seed={sd}"], tag=f".seed{sd}"))
+            extra.append(verus_pass(False, seed_args=["-V", f"smt-option=smt.random_seed={sd}", "-V", f"smt-option=sat.random_seed={sd}"], tag=f".seed{sd}", extracted=extracted))
         out["seeds"] = extra
     cache_put(key, out)
     return out
@@ -138,11 +139,13 @@ def run_kani(crate, harness, timeout=1800, extra_args=None):
         return c
     cdir = os.path.join(VERIF, "kani", crate)
     # the harness crate must resolve exactly the dependency versions /repo uses
-    shutil.copyfile(os.path.join(REPO, "Cargo.lock"), os.path.join(cdir, "Cargo.lock")) if not os.path.exists(os.path.join(cdir, "Cargo.lock")) else None
+    if not os.path.isdir(cdir):
+        return {"crate": crate, "harness": harness, "status": "error", "wall": 0, "rc": -1, "failed_checks": [], "stubs": [], "cmd": "", "tail": "kani crate missing", "cache_hit": False}
+    shutil.copyfile(os.path.join(REPO, "Cargo.lock"), os.path.join(cdir, "Cargo.lock"))
     env = dict(os.environ)
     env["CARGO_NET_OFFLINE"] = "true"
     env["CARGO_TARGET_DIR"] = os.path.join(VERIF, ".build", "kani-" + crate)
-    cmd = ["cargo", "kani", "-Z", "stubbing", "-Z", "function-contracts", "--harness", harness, "--output-format", "terse"] + (extra_args or [])
+    cmd = ["cargo", "kani", "-Z", "stubbing", "-Z", "function-contracts", "--harness", "proofs::" + harness, "--exact", "--output-format", "terse"] + (extra_args or [])
     t0 = time.time()
     try:
         p = subprocess.run(cmd, cwd=cdir, env=env, capture_output=True, text=True, timeout=timeout)
@@ -228,13 +231,15 @@ def clause_text(vr, ref):
     return vr["main"]["clauses"].get(ref, "")
 
 
-def expand_refs(vr, refs):
-    """('fn','*') -> all labelled clauses of fn"""
+def expand_refs(vr, refs, exclude=()):
+    """('fn','*') -> all labelled clauses of fn (minus excluded labels)"""
     out = []
     allc = vr["main"]["clauses"]
     for fn, lab in refs:
         if lab == "*":
-            got = [k for k in allc if k.split("|")[0] == fn and not k.endswith("|__vacuity")]
+            got = [k for k in allc if k.split("|")[0] == fn and not k.endswith("|__vacuity") and k.split("|")[1] not in exclude]
+            if not got and fn in vr["main"]["contracted"]:
+                continue   # function under contract through trait-level clauses only
             if not got and fn not in vr["main"]["contracted"]:
                 out.append(f"{fn}|<missing>")
             out += got
@@ -277,7 +282,7 @@ def check_property(pid, tier, seed):
     holds = False
     unstable = []
     for alt in P["alternatives"]:
-        refs = expand_refs(vr, alt.get("clauses", []))
+        refs = expand_refs(vr, alt.get("clauses", []), alt.get("exclude", ()))
         needed_fns = sorted(set(r.split("|")[0] for r in refs))
         failed = []
         undecided = []
@@ -312,7 +317,9 @@ def check_property(pid, tier, seed):
             if fn in main["contracted"] and f"{fn}|__vacuity" in vac["clause_lines"] and f"{fn}|__vacuity" not in vac["failed_clauses"]:
                 undecided.append(f"VACUOUS: `ensures false` verified for the twin of {fn} (contradictory contract or prelude)")
         for th in alt.get("theorems", []):
-            if th in vac["theorem_names"] and th not in vac["failed_theorems"] and th in vxprops.VACUITY_THEOREMS:
+            if th in vxprops.VACUITY_THEOREMS and (th + "__vac") not in vac["theorem_names"]:
+                undecided.append(f"LOST-ANCHOR: theorem {th} has no //@vacuity marker")
+            elif th in vxprops.VACUITY_THEOREMS and (th + "__vac") not in vac["failed_theorems"]:
                 undecided.append(f"VACUOUS: theorem {th} proves false (unsatisfiable hypotheses)")
         # seeds (thorough): anything that passes in one seed and fails in another is unstable
         for srun in vr.get("seeds", []):
@@ -331,7 +338,17 @@ def check_property(pid, tier, seed):
                 failed.append(("kani", f"{kr['crate']}::{kr['harness']}", "; ".join(kr["failed_checks"]) or kr["tail"][-600:]))
             elif kr["status"] != "success":
                 undecided.append(f"kani {kr['crate']}::{kr['harness']} did not complete: " + kr["tail"][-400:])
-        alt_reports.append({"name": alt["name"], "refs": refs, "theorems": alt.get("theorems", []), "failed": failed, "undecided": undecided, "kani": kres, "fns": needed_fns})
+        # concrete exploration on the real code (testing, never counted as proof): thorough tier
+        rres = []
+        if tier == "thorough":
+            for g in alt.get("replay", []):
+                rr = run_replay(["witness", g])
+                rres.append(rr)
+                if rr.get("found"):
+                    failed.append(("replay", f"replay::{g}", json.dumps(rr.get("witness"))[:1500]))
+                elif rr.get("error"):
+                    undecided.append(f"replay {g}: {rr['error'][:300]}")
+        alt_reports.append({"name": alt["name"], "replay": rres, "refs": refs, "theorems": alt.get("theorems", []), "failed": failed, "undecided": undecided, "kani": kres, "fns": needed_fns})
         if not failed and not undecided:
             holds = True
 
@@ -384,12 +401,21 @@ def write_replay(pid, tier, violations, alt_reports, vr):
     P = vxprops.PROPS[pid]
     witness = None
     wit_log = None
-    gen = P.get("witness")
-    if gen:
-        r = run_replay(["witness", gen])
-        wit_log = r
+    gens = []
+    for a in P["alternatives"]:
+        gens += a.get("replay", [])
+    if P.get("witness"):
+        gens.append(P["witness"])
+    gen = None
+    wit_log = []
+    for g in dict.fromkeys(gens):
+        r = run_replay(["witness", g])
+        wit_log.append(r)
         if isinstance(r, dict) and r.get("found"):
-            witness = r
+            witness, gen = r, g
+            break
+    if gen is None and gens:
+        gen = gens[0]
     doc = {
         "property": pid, "tier": tier,
         "failed_obligations": [{"alternative": v[0], "kind": v[1], "obligation": v[2], "clause_text": vr["main"]["clauses"].get(v[2], ""), "verifier_output": v[3]} for v in violations],
